@@ -204,6 +204,7 @@ func cmdCheck(args []string) {
 	}
 	violations := 0
 	discharged := 0
+	var boundedOK []any
 	undecided := []string{}
 	var samples []any
 	bySolver := map[string]int{}
@@ -240,6 +241,11 @@ func cmdCheck(args []string) {
 		if len(samples) < 6 {
 			samples = append(samples, map[string]any{"obligation": name, "kind": or.Obl.Kind, "status": or.Status, "solver": or.Res.Solver,
 				"secs": or.Res.Secs, "smt_bytes": len(or.Func.VC.Query(or.Obl, false, false)), "statement": or.Obl.Descr})
+		}
+		if or.Obl.Bound != "" && (or.Status == "PROVED" || or.Status == "COVERED") {
+			// a bounded stand-in: reported, never counted as proved
+			boundedOK = append(boundedOK, map[string]any{"obligation": name, "bound": or.Obl.Bound, "statement": or.Obl.Descr, "solver": or.Res.Solver, "secs": or.Res.Secs})
+			continue
 		}
 		switch or.Status {
 		case "PROVED", "COVERED":
@@ -357,7 +363,7 @@ func cmdCheck(args []string) {
 		os.MkdirAll(filepath.Join(*verif, "expected"), 0o755)
 		os.WriteFile(filepath.Join(*verif, "expected", *prop+".txt"), []byte("# obligations discharged on the unchanged tree\n"+strings.Join(names, "\n")+"\n"), 0o644)
 	}
-	total := len(all)
+	total := len(all) - len(boundedOK)
 	level := "proof"
 	as := []string{"integers are modelled exactly (mathematical Int with explicit mod 2^w wrap, or bit-vectors); no concurrency, crash, I/O or resource-limit behaviour is modelled (DESIGN.md §4)"}
 	for a := range assumptions {
@@ -374,7 +380,10 @@ func cmdCheck(args []string) {
 		"obligations": total, "discharged": discharged, "checker_cmd": checkerCmd, "trusted_base": trusted,
 		"functions_under_contract": funcs, "by_solver": bySolver, "solver_time_s": solverSecs,
 		"undecided": undecided, "known_findings_hit": knownHit, "samples": samples, "missing_expected": missing,
-		"bounded": []string{},
+		"bounded": boundedOK, "bounded_note": "obligations listed under 'bounded' were checked only for inputs within the stated bound: stand-ins, not proofs, and not counted in obligations/discharged",
+	}
+	if boundedOK == nil {
+		cov["bounded"] = []any{}
 	}
 	if total == 0 || discharged != total || len(undecided) > 0 {
 		level = "other"
@@ -385,8 +394,8 @@ func cmdCheck(args []string) {
 		fmt.Printf("ENGINE-ERROR property=%s no obligations generated\n", *prop)
 	}
 	writeEv(&evidence{PropertyID: *prop, Tier: *tier, Seed: seed, Level: level, Coverage: cov, Assumptions: as, Violations: violations})
-	fmt.Printf("property=%s tier=%s functions=%d obligations=%d discharged=%d undecided=%d known=%d violations=%d wall=%.1fs\n",
-		*prop, *tier, len(frs), total, discharged, len(undecided), len(knownHit), violations, time.Since(t0).Seconds())
+	fmt.Printf("property=%s tier=%s functions=%d obligations=%d discharged=%d bounded=%d undecided=%d known=%d violations=%d wall=%.1fs\n",
+		*prop, *tier, len(frs), total, discharged, len(boundedOK), len(undecided), len(knownHit), violations, time.Since(t0).Seconds())
 	os.RemoveAll(workDir)
 	if violations > 0 {
 		os.Exit(1)
